@@ -117,6 +117,7 @@ def scale_bases(ss0, rows, rng):
 class RefParams:
     def __init__(self, ss):
         self.ss = ss
+        self._limit_cache = {}
         self.set_marks = set()       # (model, param, uid) touched by set -> relation suspended
         self.altered = []
         self.vin = {}                # (model, param) -> np.array of input-base values (reference)
@@ -149,6 +150,19 @@ class RefParams:
             Vn = np.ones(n)
         Zn, Zb = Vn ** 2 / Sn, Vb ** 2 / Sb
         return {'power': Sn / Sb, 'ipower': Sb / Sn, 'voltage': Vn / Vb, 'current': (Sn / Vn) / (Sb / Vb), 'z': Zn / Zb, 'y': Zb / Zn}
+
+    def limit_params(self, mdl):
+        """Names of the parameters of this model that serve as lower/upper limit of one of its discrete components."""
+        key = mdl.class_name
+        if key not in self._limit_cache:
+            names = set()
+            for d in mdl.discrete.values():
+                for attr in ('lower', 'upper'):
+                    q = getattr(d, attr, None)
+                    if q is not None and getattr(q, 'name', None) in mdl.num_params:
+                        names.add(q.name)
+            self._limit_cache[key] = names
+        return self._limit_cache[key]
 
     def k_of(self, mdl, p, co):
         for kind in KINDS:
@@ -190,6 +204,11 @@ class RefParams:
                     return False
                 exp = vin_ref * k
                 ok = np.isclose(pv, exp, rtol=1e-10, atol=1e-14, equal_nan=True) | ~mask
+                if not np.all(ok) and ss.TDS.initialized and getattr(mdl.config, 'allow_adjust', 0) and pn in self.limit_params(mdl):
+                    # a limit that the (altered) data puts on the wrong side of the initial value is moved to that value at
+                    # initialisation, with a warning: documented behaviour of allow_adjust, the input value stays
+                    probes['adjusted_limit_seen'] = probes.get('adjusted_limit_seen', 0) + 1
+                    continue
                 if not np.all(ok):
                     i = int(np.where(~ok)[0][0])
                     kind = next((kk for kk in KINDS if p.property.get(kk)), 'none')
